@@ -423,6 +423,9 @@ func (x *Exec) runStmt(ctx context.Context, w wire.DataWriter, params []wire.Par
 				cr = nil
 			}
 			x.cb(ctx, rec)
+			if err != nil && err != io.EOF && S(op, "onerr") == "ret" {
+				return err // the documented use: propagate a failed read
+			}
 		case "ret":
 			if S(op, "r") == "nil" {
 				return nil
